@@ -133,31 +133,45 @@ else:
             emit(rec)
         else:
             todo.append(name)
-    # every other candidate is imported in its own fork of this state; forks of one state run
-    # concurrently (they cannot influence each other) and report with one atomic write each
-    par = job.get("par", 8)
+    # every other candidate is imported in its own fork of this state (the state itself was built
+    # once, in this fresh interpreter); `par` forks run concurrently (they cannot influence each
+    # other), each reports through its own pipe and exits without running any clean-up
+    par = job.get("par", 1)
     while todo:
         batch, todo = todo[:par], todo[par:]
-        pids = []
+        kids = []
         for name in batch:
             out.flush()
+            r, w = os.pipe()
             pid = os.fork()
             if pid == 0:
                 code = 1
                 try:
-                    line = (repr(cand_record(name)) + "\n").encode("utf-8", "backslashreplace")
-                    if len(line) <= 4000:      # one atomic write (PIPE_BUF)
-                        os.write(1, line)
-                        code = 0
-                    else:
-                        code = 3
+                    os.close(r)
+                    data = (repr(cand_record(name)) + "\n").encode("utf-8", "backslashreplace")
+                    while data:
+                        n = os.write(w, data)
+                        data = data[n:]
+                    code = 0
                 finally:
                     os._exit(code)
-            pids.append((pid, name))
-        for pid, name in pids:
+            os.close(w)
+            kids.append((pid, name, r))
+        for pid, name, r in kids:
+            buf = []
+            while True:
+                chunk = os.read(r, 65536)
+                if not chunk:
+                    break
+                buf.append(chunk)
+            os.close(r)
             _, st = os.waitpid(pid, 0)
-            if st != 0:
-                emit(("cand", name, ("fail", "ChildCrash", "wait status %d" % st, ""), [], [], "", []))
+            line = b"".join(buf).decode("utf-8", "backslashreplace")
+            if st != 0 or not line.endswith("\n"):
+                emit(("cand", name, ("fail", "ChildCrash", "wait status %d" % st, ""), [], [], "", [] if alone is not None else {}))
+            else:
+                out.write(line)
+                out.flush()
 """
 
 
@@ -246,17 +260,28 @@ class Explorer:
         self.alone = {}          # module -> namespace digest when imported alone
         self.startup = None
         self.processes = 0
+        self.phases = []
 
     def transitions(self, paths_and_cands, mode, bare=False, alone=None):
+        """One fresh interpreter per state (several when there are fewer states than workers: the
+        candidates are then split), forks inside it for the transitions.  mode 'direct': one fresh
+        interpreter per candidate (used for the `-I -S` pass only)."""
         jobs = []
         paths_and_cands = list(paths_and_cands)
-        per_state = max(1, -(-2 * core.NPROC // max(1, len(paths_and_cands))))
+        nstates = max(1, len(paths_and_cands))
+        per_state = max(1, -(-core.NPROC // nstates))
+        running = min(core.NPROC, nstates * per_state)
+        par = max(1, min(4, -(-core.NPROC // running)))
         for path, cands in paths_and_cands:
             size = 1 if mode == "direct" else max(1, -(-len(cands) // per_state))
             for ch in chunks(cands, size):
-                jobs.append(dict(path=list(path), cands=ch, mode=mode, bare=bare, alone=alone))
+                jobs.append(dict(path=list(path), cands=ch, mode=mode, bare=bare, alone=alone, par=par))
+        import time
+        t0 = time.time()
         results = list(self.pool.map(run_job, jobs))
         self.processes += len(jobs)
+        self.phases.append(dict(mode=mode, bare=bare, states=len(paths_and_cands), processes=len(jobs), par=par,
+                                transitions=sum(len(j["cands"]) for j in jobs), seconds=round(time.time() - t0, 1)))
         out = []
         for job, (st, pathrec, recs, _) in zip(jobs, results):
             if bare:
@@ -334,7 +359,7 @@ class Explorer:
             work = [(path, self.mods) for path, _ in frontier]
             keyof = {tuple(path): key for path, key in frontier}
             if depth == 0:
-                trs = self.transitions(work, "direct", alone=None)
+                trs = self.transitions(work, os.environ.get("C01_D0", "fork"), alone=None)
                 for tr in trs:               # the alone digests are the reference for everything else
                     if tr["res"][0] == "ok":
                         self.alone[tr["cand"]] = tr["info"][tr["cand"]]
@@ -399,14 +424,15 @@ def run():
     ck.coverage_extra = dict(modules=len(mods), module_list=mods, bfs_depth=info["depth"], new_states_per_layer=info["layers"],
                              fixpoint=info["fixpoint"], unexpanded_frontier=info["frontier_left"],
                              interpreter_processes=ex.processes, ordered_pairs_without_abstraction=npairs,
-                             alone_imports_without_site=nbare, interpreter="%s -I -W ignore" % PY)
+                             alone_imports_without_site=nbare, phases=ex.phases, interpreter="%s -I -W ignore" % PY)
     ck.assumptions = [
         "supported interpreter = /venv/bin/python (3.12); `-I` isolates from environment, user site and cwd; the driver imports only sys, os, zlib",
         "state abstraction: two paths are the same state when the same ioflo modules are in sys.modules with the same public "
         "namespaces (fingerprint over every loaded ioflo module) and the same imports failed",
-        "states at depth >= 1 are materialised in a fresh interpreter; their outgoing transitions run in forks of that interpreter "
-        "(imports of already loaded modules run in place: a sys.modules lookup); depth-0 transitions, i.e. every module alone, "
-        "each run in their own fresh interpreter, once with site (`-I`) and once without (`-I -S`)",
+        "every state (the initial, empty one included) is materialised in a fresh `python -I` interpreter that replays the path; its "
+        "outgoing transitions each run in an os.fork() of that interpreter (imports of already loaded modules run in place: a "
+        "sys.modules lookup), so the first import of every path still happens in a brand-new interpreter; additionally every "
+        "module is imported alone in its own fresh `python -I -S` interpreter (no site: not even `collections` preloaded)",
         "`the result does not depend on what was imported before`: after every transition the namespace of every loaded ioflo "
         "module (what a following `import x` returns) must equal the namespace x has when imported alone",
         "namespace = public (no leading underscore) module attributes described by kind and defining module, excluding a package's own "
